@@ -1,6 +1,7 @@
 import JellyProofs.Lemmas.NsSim
 import JellyProofs.Lemmas.SerRows
 import JellyProofs.Lemmas.DecoderRefines
+import JellyProofs.Lemmas.Unpin
 /-!
 # Several sinks through one stream (`grouped_stream_to_frames`) against the reference decoder (C07 d),
 # and the term-encoder → decoder mirror for IRIs (C05 at the term level)
@@ -298,6 +299,16 @@ structure IriInv (P : Preset) (te : TermEnc) (ss : Spec.State) : Prop where
   lrd : ss.datatypes.lastReused = te.datatypes.lastReused
   opts : ss.opts ≠ none
   wf : ss.WF
+  /-- the term encoder is used raw (nobody calls `start_row`): no pin tracking -/
+  raw : te.unpin = te
+
+/-- `pinned` is invisible to `WFT` / `EM`. -/
+theorem WFT.unpin {P : Preset} {te : TermEnc} (h : WFT P te) : WFT P te.unpin :=
+  ⟨h.wfn.congr rfl rfl rfl, h.wfp.congr rfl rfl rfl, h.wfd.congr rfl rfl rfl, h.maxn, h.maxp, h.maxd, h.p0⟩
+
+theorem EM.unpin {te : TermEnc} {ss : Spec.State} (m : EM te ss) : EM te.unpin ss :=
+  ⟨⟨m.n.size, m.n.len, m.n.la, m.n.res⟩, ⟨m.p.size, m.p.len, m.p.la, m.p.res⟩,
+   ⟨m.d.size, m.d.len, m.d.la, m.d.res⟩⟩
 
 /-- One IRI: the encoder succeeds, pyjelly's decoder ingests the entry rows and resolves the emitted
     ids to the IRI, and the invariant is re-established. -/
@@ -307,14 +318,24 @@ theorem iri_step_sim {P : Preset} (hv : P.valid = true) (po : ParserOptions) {te
       (mirror po .triples ss).decodeRows true rows [] = (mirror po .triples ssE, [], none) ∧
       (mirror po .triples ssE).decodeIri p n = .ok (mirror po .triples ss', iri) ∧
       IriInv P te' ss' := by
-  obtain ⟨wft, em, lrn, lrp, lrd, hopt, hw⟩ := inv
-  obtain ⟨te', rows, p, n, R', heq, sim, res⟩ :=
+  obtain ⟨wft, em, lrn, lrp, lrd, hopt, hw, hraw⟩ := inv
+  -- simulate on the encoder with pin tracking switched on, then forget the pins
+  obtain ⟨te'', rows, p, n, R', heq', sim, res⟩ :=
     iriIndices_sim (TFits.nsSingle hv iri) (wft.tinv _) iri (by simp) (by simp)
-  obtain ⟨ssE, mE, fE, runE⟩ := sim.ing ss em hopt
-  have hself : setLR ssE te = ssE :=
+  have heq : te.iriIndices iri = (te''.unpin, .ok (rows, p, n)) := by
+    have := TermEnc.iriIndices_unpin_ok heq'
+    have hsr : te.startRow.unpin = te := hraw
+    rwa [hsr] at this
+  generalize hte' : te''.unpin = te' at heq
+  obtain ⟨ssE, mE', fE, runE⟩ := sim.ing ss em.startRow hopt
+  have mE : EM te' ssE := hte' ▸ mE'.unpin
+  have wft' : WFT P te' := hte' ▸ sim.inv.wft.unpin
+  have hraw' : te'.unpin = te' := by rw [← hte']; rfl
+  have hlr' : setLR ssE te'' = setLR ssE te' := by rw [← hte']; rfl
+  have hself : setLR ssE te.startRow = ssE :=
     setLR_eq_self (fE.lrn.trans lrn) (fE.lrp.trans lrp) (fE.lrd.trans lrd)
-  have hres := res ssE (mE.agree sim.inv.wft R')
-  rw [hself] at hres
+  have hres := res ssE (mE'.agree sim.inv.wft R')
+  rw [hself, hlr'] at hres
   have hrun : Spec.run ss rows [] 0 = (ssE, [], none) := by
     have := runE [] [] 0
     simpa [Spec.run] using this
@@ -322,6 +343,6 @@ theorem iri_step_sim {P : Preset} (hv : P.valid = true) (po : ParserOptions) {te
     (iriIndices_rows_entry heq) hw hrun
   obtain ⟨d2, k2, _⟩ := iri_sim (po := po) (ad := .triples) wE hres
   exact ⟨te', rows, p, n, ssE, setLR ssE te', heq, d1, d2,
-    ⟨sim.inv.wft, mE.setLR te', rfl, rfl, rfl, by show ssE.opts ≠ none; rw [oE]; exact hopt, k2.1⟩⟩
+    ⟨wft', mE.setLR te', rfl, rfl, rfl, by show ssE.opts ≠ none; rw [oE]; exact hopt, k2.1, hraw'⟩⟩
 
 end Jelly
